@@ -40,7 +40,7 @@ func runC09(c *Ctx) {
 				{EqNil(Field("allowPeer", Any())), true},
 				{Op("dyncall", "", Field("allowPeer", Any())), true},
 			}
-			c.Check(c.PathsCarry(cs.In.Block(), allow), "C09.A1-filter-before-cache", key+" › allowed", cs.In.Pos(),
+			c.Check((c.PathsCarry(cs.In.Block(), allow) || c.PathsCarryDAG(cs.In.Block(), allow)), "C09.A1-filter-before-cache", key+" › allowed", cs.In.Pos(),
 				"every path to the cache update carries 'no allow filter' or 'allow filter returned true'", "the duplicate cache is updated for announcements the allow filter rejects (or before it is asked): a rejected announcement poisons the filter")
 			// the peer asked about is the announcement's publisher
 			okPeer := false
@@ -214,7 +214,48 @@ func runC09(c *Ctx) {
 		c.Check(filtered, "C09.A4-addresses-filtered", key+" › filterIPs", ss.Pos, "with filterIPs, Addrs = mautil.FilterPublic(Addrs) before delivery and republication", "address filtering is not applied (or not to the delivered value)")
 	}
 	c.Check(nSend == 1, "C09.A3-deliver-checked", "announce › single delivery site", token.NoPos, "one send site on the consumer channel", "the consumer channel is fed from "+itoa(nSend)+" sites")
-	c.Floor("C09.A3-deliver-checked", 4)
+	// the hand-over to Next waits as long as the caller lets it: the context alternative of the hand-over select is the
+	// caller's own context, not one derived for another step (a deadline meant for the republication would also drop
+	// an accepted announcement whose consumer is slow)
+	if dl := c.Role("announce.deliver"); dl != nil {
+		nCtx := 0
+		for _, f := range c.Funcs(pkg) {
+			if f.SSA != dl && c.routineOf(f.SSA) != dl {
+				continue
+			}
+			instrs(f.SSA, func(in ssa.Instruction) {
+				sl, ok := in.(*ssa.Select)
+				if !ok {
+					return
+				}
+				hands := false
+				for _, st := range sl.States {
+					if st.Dir == types.SendOnly && strings.HasSuffix(st.Send.Type().String(), "announce.Announce") {
+						hands = true
+					}
+				}
+				if !hands {
+					return
+				}
+				for _, st := range sl.States {
+					if st.Dir != types.RecvOnly {
+						continue
+					}
+					m, isDone := Match(Invoke("context.Context.Done", Bind("ctx")), c.E(st.Chan))
+					if !isDone {
+						continue
+					}
+					nCtx++
+					own := ParamLike()(strip(m["ctx"]), nil)
+					c.Check(own, "C09.A3-deliver-checked", c.short(f.SSA.String())+" › hand-over under the caller's context", sl.Pos(), "the select's context alternative is the context the routine was given", "the hand-over select waits on a derived context ("+abbreviate(m["ctx"].String())+"), not the caller's: a timeout set for another step drops an allowed, unseen announcement whose consumer is slow")
+				}
+			})
+		}
+		if nCtx == 0 {
+			c.Unk("C09.A3-deliver-checked", "announce › hand-over under the caller's context", token.NoPos, "no context alternative found in the hand-over select")
+		}
+	}
+	c.Floor("C09.A3-deliver-checked", 5)
 	c.Floor("C09.A4-addresses-filtered", 1)
 	// the filters in force are the configured ones: every receiver the constructor hands out carries the configured
 	// allow filter and address-filter flag (a second construction path that forgets one silently disables it)
@@ -787,7 +828,7 @@ func refusedLeavesNoTrace(c *Ctx, rule string) {
 				{EqNil(Field("allowPeer", Any())), true},
 				{Op("dyncall", "", Field("allowPeer", Any())), true},
 			}
-			c.Check(c.PathsCarry(cs.In.Block(), allow), rule, c.short(cs.Fn.String())+" › cache update › allowed", cs.In.Pos(),
+			c.Check((c.PathsCarry(cs.In.Block(), allow) || c.PathsCarryDAG(cs.In.Block(), allow)), rule, c.short(cs.Fn.String())+" › cache update › allowed", cs.In.Pos(),
 				"every path to the cache update carries 'no allow filter' or 'allow filter returned true'", "the duplicate cache is updated for announcements the allow filter rejects (or before it is asked): a refused announcement makes the later, accepted announcement of the same head look like a duplicate")
 		}
 	}
